@@ -9,11 +9,13 @@
 using namespace romea::core;
 using IV = std::vector<long long>;
 
+// real coordinate = g_base + g_scale * integer (all exactly representable): far-offset frames and micro-scale clouds
+static double g_base = 0, g_scale = 1;
 template<class PT, size_t DIM>
 static PT mk(const IV & p)
 {
   PT x;
-  for (size_t a = 0; a < DIM; ++a) {x[a] = (typename PT::Scalar)p[a];}
+  for (size_t a = 0; a < DIM; ++a) {x[a] = (typename PT::Scalar)(g_base + g_scale * (double)p[a]);}
   if ((size_t)PT::RowsAtCompileTime > DIM) {x[DIM] = 1;}
   return x;
 }
@@ -31,14 +33,14 @@ static void queries(const std::vector<IV> & pts, const std::vector<IV> & qs, con
     PT qp = mk<PT, DIM>(q);
     size_t idx = 0; S d = 0;
     tree.findNearestNeighbor(qp, idx, d);
-    bool ok = true; long long di = vh::proj((double)d, ok, 1e-9);
+    bool ok = true; long long di = vh::proj((double)d / (g_scale * g_scale), ok, 1e-9);
     out.put(vh::Ev("nn").vec("q", q).i("i", (long long)idx).i("d2", di).b("exact", ok));
     int k = ks[qi++ % ks.size()];
     if (k > (int)pts.size()) {k = (int)pts.size();}
     std::vector<size_t> ix(k); std::vector<S> ds(k);
     tree.findNearestNeighbors(qp, (size_t)k, ix, ds);
     IV ixv, dsv; bool okk = true;
-    for (int m = 0; m < k; ++m) {ixv.push_back((long long)ix[m]); dsv.push_back(vh::proj((double)ds[m], okk, 1e-9));}
+    for (int m = 0; m < k; ++m) {ixv.push_back((long long)ix[m]); dsv.push_back(vh::proj((double)ds[m] / (g_scale * g_scale), okk, 1e-9));}
     out.put(vh::Ev("knn").vec("q", q).i("k", k).vec("idx", ixv).vec("d2", dsv).b("exact", okk));
   }
 }
@@ -92,7 +94,18 @@ static void randomSet(vh::Rng & r, int maxpts, vh::Out & out)
   }
   std::vector<int> ks;
   for (int k = 0; k < nq; ++k) {ks.push_back((int)r.range(1, std::min(n, 50)));}
-  dispatch<DIM>((int)r.range(0, 3), pts, qs, ks, out);
+  int type = (int)r.range(0, 3);
+  const bool isFloat = type % 2 == 1;
+  g_base = 0; g_scale = 1;
+  if (m <= 100 && r.coin(1, 3)) {
+    int st = (int)r.range(0, 2);
+    if (st == 0) {g_scale = 1.0 / 64; g_base = isFloat ? 1024.0 : 1048576.0;}       // a frame far from the origin (UTM-like)
+    else if (st == 1) {g_scale = std::ldexp(1.0, -24);}                               // a micro-scale cloud
+    else {g_scale = std::ldexp(1.0, -21); g_base = 4.0;}                              // a tight cluster away from the origin
+    if (isFloat && g_base != 0 && m > 60) {g_base = 0;}                               // keep float coordinates exactly representable
+  }
+  dispatch<DIM>(type, pts, qs, ks, out);
+  g_base = 0; g_scale = 1;
 }
 
 template<size_t DIM>
